@@ -29,7 +29,7 @@ def wellformed(rnd, tier, structs=True, messages=True, streams=True, per_type=No
     cases = []
     if structs:
         n = per_type if per_type is not None else (2 if tier == "quick" else 10)
-        _, sc, _ = suites.g1_cases(rnd, n, layout=L, forced=(tier != "quick"))
+        _, sc, _ = suites.g1_cases(rnd, n, layout=L, forced=True)     # every selector boundary value in every tier
         for key, v, b in sc:
             cases.append(Case(key, None, False, b, "wf_struct", v))
     if structs:
@@ -55,6 +55,18 @@ def wellformed(rnd, tier, structs=True, messages=True, streams=True, per_type=No
                 if streams:
                     cases.append(Case("Stream", None, False, cb + rb, "wf_stream", None,
                                       {"parts": [len(cb), len(rb)], "cc": cc}))
+        if messages:
+            # deterministic coverage of parameter encryption: for every command code one command whose sessions request
+            # decryption (the first parameter is opaque iff the area starts with a TPM2B — otherwise the area stays in the
+            # clear) and, where the response area starts with a TPM2B, one response with an encrypt session
+            for cc in M.ccs:
+                c = M.command(cc, nsess=rnd.choice([1, 2, 3]), decrypt=True, encrypt=rnd.random() < 0.3)
+                if c is not None:
+                    cases.append(Case("Command", None, False, c[1], "wf_cmd", c[0], c[2]))
+                if M.can_encrypt(cc, True):
+                    r = M.response(cc, nsess=rnd.choice([1, 2]), encrypt=True)
+                    if r is not None:
+                        cases.append(Case("Response", cc, True, r[1], "wf_rsp", r[0], r[2]))
     return L, M, cases
 
 
@@ -162,3 +174,18 @@ def correspondence_violation(ctx, name, cases, mode, impl, model, project=None):
 
 def kinds_distribution(cases):
     return dict(collections.Counter(c.kind for c in cases))
+
+
+def usable(ctx, case, block, L, counter):
+    """is this well-formed case decoded cleanly by the implementation (so that faults can be derived from its decode)?
+    A pinned-well-formed input that strict decoding rejects is a violation in its own right (C01/C04's "only if" direction);
+    it is reported here so that no check silently loses its inputs."""
+    ok = block[-1].startswith("R done") and widths_ok(block, L)
+    counter["wf_total"] = counter.get("wf_total", 0) + 1
+    if not ok:
+        counter["wf_unusable"] = counter.get("wf_unusable", 0) + 1
+        if counter["wf_unusable"] <= 2:
+            ctx.violations.append({"kind": "concrete", "signature": f"wf-rejected:{block[-1].split(' ')[1]}",
+                                   "what": f"a well-formed {case.tname} (pinned layout) is not decoded cleanly by strict decoding: {block[-1][:160]}",
+                                   "replay": case.replay("S")})
+    return ok
